@@ -32,6 +32,10 @@ From NV Require Sam.LazyData Sam.LazyDataProofs Bam.File Bam.FileProofs Bam.Reus
 From NV Require Hostile.TotalCram Hostile.TotalFast Hostile.TotalVcf.
 From NV Require Vcf.Line Vcf.LazyRec Vcf.LazyRecProofs.
 From NV Require Bcf.Lazy Bcf.LazyProofs.
+(* eighth wave: the CRAM slice reader's resolve_mates with explicit index panics (own model, L2 kind
+   cmate) over C07's record arithmetic *)
+From NV Require CramRec.Features CramRec.Mates Hostile.MatesP Hostile.MatesPProofs.
+From NV Require Bcf.LazySiteProofs Bcf.LazyEagerProofs Bcf.LazyConverse.
 Import ListNotations.
 Open Scope N_scope.
 
@@ -792,3 +796,121 @@ Example c15_nonvacuous_fastq :
   /\ snd (NV.Fasta.Fastq.read_qfile [64;114;10;65;10]) = Some NV.Fasta.Fastq.QUnexpectedEof
   /\ snd (NV.Fasta.Reader.read_file [65;10]) = Some NV.Fasta.Reader.RInvalidData.
 Proof. repeat split; vm_compute; reflexivity. Qed.
+
+
+(* ============================================================================================ *)
+(* EIGHTH WAVE: the CRAM slice reader's resolve_mates on ANY records and ANY mate distances.     *)
+(* ============================================================================================ *)
+
+(* ---- (23) resolve_mates (noodles-cram/src/io/reader/container/slice.rs) ----------------------- *)
+
+(* NV.Hostile.MatesP.resolve_mates_p is C15's own model of the function: every slice index of the
+   Rust (mate_indices[i], mate_indices[j], split_at_mut(j + 1), mate_index - mid,
+   right[mate_index - mid], split_at_mut(j), right[0], left[i], records[mate_index]) is a checked
+   access with its own MPPanic site, and the two `while let` walks -- which have no counter in the
+   Rust -- run on fuel with the explicit outcome MPFuel.  It is compared with the crate through a
+   CRC-sealed CRAM container whose CF / NF series carry arbitrary DETACHED / MATE_IS_DOWNSTREAM bits
+   and arbitrary distances (kind cmate).  For EVERY list of records (any flags, names, positions,
+   features, cram flags and mate distances -- not only what a writer produces, cf. C07's
+   c07_written_slice_resolves_w): the result is Ok with as many records as the slice or the
+   InvalidData error of the /repo 21bfe86 check; no index site is reached and neither walk spins. *)
+Theorem c15_cram_resolve_mates_total : forall rs,
+  (exists out, NV.Hostile.MatesP.resolve_mates_p rs = NV.Hostile.MatesP.MPOk out /\ length out = length rs) \/
+  NV.Hostile.MatesP.resolve_mates_p rs = NV.Hostile.MatesP.MPErr.
+Proof. exact NV.Hostile.MatesPProofs.resolve_mates_p_total. Qed.
+Print Assumptions c15_cram_resolve_mates_total.
+
+Theorem c15_cram_resolve_mates_never_panics : forall rs s,
+  NV.Hostile.MatesP.resolve_mates_p rs <> NV.Hostile.MatesP.MPPanic s /\
+  NV.Hostile.MatesP.resolve_mates_p rs <> NV.Hostile.MatesP.MPFuel.
+Proof. exact NV.Hostile.MatesPProofs.resolve_mates_p_never_panics. Qed.
+Print Assumptions c15_cram_resolve_mates_never_panics.
+
+(* the checked model IS C07's silent model (reads with a default, out-of-range writes dropped)
+   lifted into the four-way result: every theorem C07 proves about resolve_mates (chains, TLEN
+   signs, written slices) is a theorem about the function with its panic sites *)
+Theorem c15_cram_resolve_mates_refines_c07 : forall rs,
+  NV.Hostile.MatesP.resolve_mates_p rs =
+    match NV.CramRec.Mates.resolve_mates rs with
+    | Some out => NV.Hostile.MatesP.MPOk out
+    | None => NV.Hostile.MatesP.MPErr
+    end.
+Proof. exact NV.Hostile.MatesPProofs.resolve_mates_p_eq. Qed.
+Print Assumptions c15_cram_resolve_mates_refines_c07.
+
+(* the error is exact: InvalidData iff some record's distance points at or past the end of the slice *)
+Theorem c15_cram_resolve_mates_err_iff : forall rs,
+  NV.Hostile.MatesP.resolve_mates_p rs = NV.Hostile.MatesP.MPErr <->
+  exists x d, (x < length rs)%nat /\
+    NV.CramRec.Mates.m_dist (NV.CramRec.Mates.rget rs x) = Some d /\
+    (length rs <= x + N.to_nat d + 1)%nat.
+Proof. exact NV.Hostile.MatesPProofs.resolve_mates_p_err_iff. Qed.
+Print Assumptions c15_cram_resolve_mates_err_iff.
+
+(* the reader before /repo 21bfe86 (mate index = i + distance + 1, unchecked) reaches
+   right[mate_index - mid] on the input of the fix's unit test, and agrees with the repaired reader
+   on every slice the repaired reader accepts (recorded, fixed finding) *)
+Theorem fixed_cram_resolve_mates_v0_witness :
+  NV.Hostile.MatesP.resolve_mates_p_v0
+    [NV.Hostile.MatesPProofs.rec_dist (Some 1); NV.Hostile.MatesPProofs.rec_dist None]
+    = NV.Hostile.MatesP.MPPanic NV.Hostile.MatesP.S_RIGHT_MATE /\
+  NV.Hostile.MatesP.resolve_mates_p
+    [NV.Hostile.MatesPProofs.rec_dist (Some 1); NV.Hostile.MatesPProofs.rec_dist None]
+    = NV.Hostile.MatesP.MPErr /\
+  forall rs out, NV.Hostile.MatesP.resolve_mates_p rs = NV.Hostile.MatesP.MPOk out ->
+                 NV.Hostile.MatesP.resolve_mates_p_v0 rs = NV.Hostile.MatesP.MPOk out.
+Proof.
+  destruct NV.Hostile.MatesPProofs.resolve_mates_p_v0_witness as [H1 H2].
+  split; [exact H1|]. split; [exact H2 | exact NV.Hostile.MatesPProofs.resolve_mates_p_v0_agrees].
+Qed.
+Print Assumptions fixed_cram_resolve_mates_v0_witness.
+
+(* non-vacuity: a chain of three (0 -> 1 -> 2) resolves, every member gets the mate columns *)
+Example c15_nonvacuous_resolve_mates :
+  NV.Hostile.MatesP.resolve_view
+    [NV.Hostile.MatesP.series_rec 65 (Some 0) (Some 5) 8 [] 4 0;
+     NV.Hostile.MatesP.series_rec 1 (Some 0) (Some 9) 8 [] 4 0;
+     NV.Hostile.MatesP.series_rec 129 (Some 0) (Some 20) 6 [NV.CramRec.Features.FDeletion 4 2] 0 0]
+  = NV.Hostile.MatesP.MPOk [(65, Some 0, Some 9, 23%Z); (1, Some 0, Some 20, (-23)%Z); (129, Some 0, Some 5, (-23)%Z)].
+Proof. vm_compute. reflexivity. Qed.
+
+
+(* ---- (24) BCF: the lazy path WITH the header's sample count (what the reader really runs) ------ *)
+
+(* c15_bcf_lazy_never_panics above is about lazy_read (no header); the conversion the reader performs
+   is lazy_read_hdr, which first compares the record's n_sample with the header's sample count hs
+   (fix 30014e8).  For every byte string, dictionary, typing, file format and hs: never the panic
+   outcome, and it is either the header-less conversion or an error (C10's theorems, restated) *)
+Theorem c15_bcf_lazy_hdr_total : forall v44 strings contigs ik fk hs bs,
+  NV.Bcf.Lazy.lazy_read_hdr v44 strings contigs ik fk hs bs <> NV.Bcf.Typed.RPanic /\
+  (NV.Bcf.Lazy.lazy_read_hdr v44 strings contigs ik fk hs bs = NV.Bcf.Lazy.lazy_read v44 strings contigs ik fk bs \/
+   NV.Bcf.Lazy.lazy_read_hdr v44 strings contigs ik fk hs bs = NV.Bcf.Typed.RErr).
+Proof.
+  intros v44 strings contigs ik fk hs bs. split;
+  [exact (NV.Bcf.LazyProofs.lazy_read_hdr_never_panics v44 strings contigs ik fk hs bs)
+  | exact (NV.Bcf.LazyProofs.lazy_read_hdr_or v44 strings contigs ik fk hs bs)].
+Qed.
+Print Assumptions c15_bcf_lazy_hdr_total.
+
+(* consequence of c10_lazy_iff_eager for hostile input: outside C10's two recorded classes
+   (lazy_only, lazy_agree) a byte string is REJECTED by the lazy path iff it is rejected by the eager
+   decoder and accepted iff accepted -- neither reader has a hostile input the other one lets
+   through, and neither outcome is a panic *)
+Theorem c15_bcf_lazy_eager_same_outcome : forall v44 strings contigs ik fk hs bs,
+  NV.Bcf.LazySiteProofs.byte_list bs ->
+  NV.Bcf.LazyConverse.lazy_only strings ik fk bs = false ->
+  NV.Bcf.LazyEagerProofs.lazy_agree strings contigs ik fk hs bs = true ->
+  ((exists t', NV.Bcf.Lazy.lazy_read_hdr v44 strings contigs ik fk hs bs = NV.Bcf.Typed.ROk t') <->
+   (exists t, NV.Bcf.RecordTyped.dec_record_typed strings contigs ik fk hs bs = NV.Bcf.Typed.ROk t)) /\
+  (NV.Bcf.Lazy.lazy_read_hdr v44 strings contigs ik fk hs bs = NV.Bcf.Typed.RErr <->
+   NV.Bcf.RecordTyped.dec_record_typed strings contigs ik fk hs bs = NV.Bcf.Typed.RErr) /\
+  NV.Bcf.Lazy.lazy_read_hdr v44 strings contigs ik fk hs bs <> NV.Bcf.Typed.RPanic /\
+  NV.Bcf.RecordTyped.dec_record_typed strings contigs ik fk hs bs <> NV.Bcf.Typed.RPanic.
+Proof.
+  intros v44 strings contigs ik fk hs bs Hb Hc Ha.
+  destruct (NV.Bcf.LazyConverse.lazy_iff_eager v44 strings contigs ik fk hs bs Hb Hc Ha) as [H1 H2].
+  split; [exact H1|]. split; [exact H2|]. split;
+  [exact (NV.Bcf.LazyProofs.lazy_read_hdr_never_panics v44 strings contigs ik fk hs bs)
+  | exact (NV.Bcf.NeverPanics.dec_record_typed_np strings contigs ik fk hs bs)].
+Qed.
+Print Assumptions c15_bcf_lazy_eager_same_outcome.
